@@ -91,7 +91,11 @@ func ceiling(s *slip.Scope, f slip.Object, args slip.List, depth int) slip.Value
 		q = slip.Fixnum(math.Ceil(float64(q.(slip.DoubleFloat))))
 		r = tn - slip.DoubleFloat(q.(slip.Fixnum))*div.(slip.DoubleFloat)
 	case *slip.LongFloat:
-		syncFloatPrec(tn, div.(*slip.LongFloat))
+		{
+			var lf *slip.LongFloat
+			tn, lf = syncFloatPrec(tn, div.(*slip.LongFloat))
+			div = lf
+		}
 		var quo big.Float
 		_ = quo.Quo((*big.Float)(tn), (*big.Float)(div.(*slip.LongFloat)))
 		bi, acc := quo.Int(nil)
